@@ -160,7 +160,8 @@ def simulate(prog, flavour, nruns=1, run_test_with=None):
         rr.op_obs = env.op_obs
         rr.clobbered = env.clobbered
         rr.user_handler_log = env.user_handler_log
-        rr.objs_state = [dict(o.__dict__) for o in env.objs]
+        from .program import observe_obj
+        rr.objs_state = [observe_obj(o) for o in env.objs]
         if flavour == "testtools":
             rr.was_successful = target.wasSuccessful()
         elif flavour in ("extended", "none", "2.7", "2.6", "twisted"):
@@ -306,11 +307,14 @@ def oracle_outcome(sim, rr, out):
     if m.skip_decorated is not None:
         return
     kinds = [k for k, _ in rr.outcomes]
+    nothing = (not m.R) and (not m.force)
     if len(kinds) != 1:
-        return   # C01's business
+        # the bracket is C01's business, but a success reported although something raised is ours
+        if "success" in kinds and not nothing and sim.flavour != "2.6":
+            out.violate("success-but-raised", "one-of-several-outcomes", f"outcomes {kinds}; raised {[r.as_list() for r in m.R]} force={m.force}")
+        return
     got = kinds[0]
     flavour = sim.flavour
-    nothing = (not m.R) and (not m.force)
     if got == "success" and not nothing:
         out.violate("success-but-raised", ("raised" if m.R else "") + (";forced" if m.force else ""),
                     f"reported success; raised {[r.as_list() for r in m.R]} force={m.force}")
@@ -333,9 +337,10 @@ def oracle_outcome(sim, rr, out):
     # clause (c) speaks of what a *stage raised*: the forced failure is not part of it
     # (exceptions of user classes are what their user handler makes of them: not ranked here)
     failing = [m.outcome_of(r) for r in m.R if r.kind != "user" and m.outcome_of(r) in ("failure", "error")]
-    if failing and rr.user_handler_log:
-        # the outcome was reported by a user-inserted handler: what it chooses to report for
-        # its own exception class is the user's business, the framework cannot rank it
+    benign_by_class = bool(rr.user_handler_log) and rr.user_handler_log[-1][1] == "User2"   # a SkipTest subclass
+    if failing and rr.user_handler_log and not benign_by_class:
+        # the outcome was reported by a user-inserted handler for a class the framework knows
+        # nothing about: what it chooses to report is the user's business, it cannot be ranked
         out.probe("outcome-by-user-handler-with-failing-present")
     elif failing:
         worst = "error" if "error" in failing else "failure"
@@ -428,7 +433,10 @@ def oracle_details(sim, rr, out):
             out.violate("traceback-missing", "failed-expectation", f"no detail mentions mismatch {mm['desc']!r}")
     # (d) skip reason
     if kind == "skip":
-        reasons = [r.marker for r in m.R if m.outcome_of(r) == "skip"]
+        from .program import skip_reason_text
+        reasons = [skip_reason_text(r.marker, r.extra) if r.kind == "skip" else r.marker for r in m.R if m.outcome_of(r) == "skip"]
+        if None in reasons:
+            reasons = []     # a SkipTest() without arguments: any placeholder reason will do
         d = details.get("reason")
         if d is None:
             out.violate("detail-lost", "skip-reason", f"skip without reason detail; raised {[r.as_list() for r in m.R]}")
